@@ -213,11 +213,37 @@ next    add r0 r0 #1
 """, 0
 
 
-PROGRAMS = [p_call_next, p_call_next_loop, p_store_outside, p_countdown, p_nested_jsr, p_call_rets, p_push_pop, p_selfmod, p_exception, p_halt_middle, p_breaks, p_io,
+def p_reg_midline(rnd):
+    # REG while the output cursor is in the middle of a line (after PUTS / OUT without a newline)
+    return """        lea r0 msg
+        puts
+        reg
+        ld r0 ch
+        out
+        reg
+        halt
+msg     .stringz "R:"
+ch      .fill x41
+""", 0
+
+
+def p_image_into_device_area(rnd):
+    # the loaded image itself reaches xFE00 and beyond (non-zero load-time words above user space)
+    return """.orig xFDFC
+        ld r1 data
+        add r1 r1 #1
+        halt
+        .fill x0000
+data    .fill x1234
+more    .fill xBEEF
+""", 0
+
+
+PROGRAMS = [p_reg_midline, p_image_into_device_area, p_call_next, p_call_next_loop, p_store_outside, p_countdown, p_nested_jsr, p_call_rets, p_push_pop, p_selfmod, p_exception, p_halt_middle, p_breaks, p_io,
             p_unknown_trap, p_selfloop, p_no_halt, p_high]
 
 LABELS = ["here", "next", "ptr", "ptr2", "loop", "main", "val", "fn", "save", "gn", "done", "target", "newi", "dest", "mid", "start", "second", "lbl",
-          "msg", "spin", "tight", "top", "nolabel", "Loop"]
+          "msg", "spin", "tight", "top", "nolabel", "Loop", "ch", "data", "more"]
 
 
 def origin_of(text):
